@@ -201,6 +201,36 @@ pub fn run(run: &Run) {
             }
         }
     });
+    // characters whose lowercase mapping is LONGER in UTF-8 than the character, at every offset around 4 KiB .. 64 KiB after the
+    // first mapped character (output staged in fixed-size buffers)
+    run.par("growing_mappings_at_buffer_edges", true, |tid, n, l| {
+        let growing: Vec<char> = pools().cased_all.iter().copied().filter(|c| c.to_lowercase().map(|x| x.len_utf8()).sum::<usize>() > c.len_utf8()).collect();
+        let mut idx = 0usize;
+        for g in growing.iter().take(24) {
+            for (lo, hi) in [(4086usize, 4100usize), (8180, 8196), (16376, 16390), (32762, 32772), (65530, 65540)] {
+                for k in lo..=hi {
+                    idx += 1;
+                    if idx % n != tid {
+                        continue;
+                    }
+                    for s in [format!("A{}{g}", "a".repeat(k)), format!("A{}{g}{g}z", "a".repeat(k)), format!("\u{c9}{}{g}", "a".repeat(k))] {
+                        l.cases += 1;
+                        let p = profs[idx % 2];
+                        if check(p, &s, l).is_err() {
+                            // report without shrinking: the filler length is the point
+                            if let Err(mut v) = check(p, &s, &mut Local::scratch()) {
+                                v.case = json!({"op": "case_mapping_rule", "profile": p.name(), "input": jstr(&s)});
+                                v.expected.truncate(120);
+                                v.observed.truncate(300);
+                                run.violate(v);
+                            }
+                            return;
+                        }
+                    }
+                }
+            }
+        }
+    });
     // n DISTINCT characters with a lowercase mapping followed by repeats of earlier ones (per-call memo tables)
     run.par("distinct_cased_runs_with_repeats", true, |tid, n, l| {
         let ca = &pools().cased_all;
